@@ -61,7 +61,8 @@ BigFracYears == MCFracYears \cup {7601, 7603, 7618, 8098, 39998}
 MCFracMonthPins == {-6, -1, 2, 6, 49, 51, 53}
 MCFracDayPins   == {-6, -1, 2, 6, 115, 126, 129}
 \* EOMONTH / EDATE from every quarter of these days, months -30..30 by quarters
-MCFracStarts  == {1, 59, 60, 61, 39844, 43890, 2958465}
+\* (day 0: a time of the day without a date is a moment of 1900-01-00)
+MCFracStarts  == {0, 1, 59, 60, 61, 39844, 43890, 2958465}
 BigFracStarts == MCFracStarts \cup {31, 366, 425, 36585, 39872, 40000, 45351, 73050, 2958101}
 MCFracShiftLo == -30
 MCFracShiftHi == 30
